@@ -81,6 +81,8 @@ let gen ~(tier : string) ~(seed : int) ~(emit : Sexp.t -> unit) : unit =
       emit (case_toks edited)
     end
   done;
+  (* chains with parentheses in every operand position, against the independent left-associating reader *)
+  Chains.enumerate (fun toks -> emit (L [ A "parsesrc"; A (Gen_prog.hex_of_string (Chains.wrapper ^ Chains.text_of toks)); A "chain" ]));
   (* real programs *)
   for i = 1 to (if tier = "quick" then 4000 else 40000) do
     let m = if i mod 2 = 0 then Gen_prog.full_annot else Gen_prog.mixed in
@@ -93,15 +95,32 @@ let check (case : Sexp.t) (res : Sexp.t) : [ `Ok | `Mismatch of string | `Proper
   | L (A "parsetoks" :: ts), _ ->
     let ts = List.map stok_of_sexp ts in
     compare_parse (ptoks_of_stoks ts) (parse_parse_result res)
-  | L [ A "parsesrc"; _ ], L [ A "parsed"; L (A "toks" :: its); r ] ->
+  | L [ A "parsesrc"; h; A "chain" ], L [ A "parsed"; L (A "toks" :: its); r ] ->
+    (* expected tree from the independent reader, on the implementation's own tokens *)
+    let body_toks = (match its with _ :: _ :: _ :: _ :: _ :: _ :: _ :: _ :: rest -> rest | _ -> []) in
+    let tk_of x = (match tok_of_sexp x with
+        | { tv = TIdent [ c ]; _ } -> (match int_of_n c with 102 -> Chains.Id 3 | 103 -> Chains.Id 2 | 104 -> Chains.Id 1 | _ -> Chains.Id 0)
+        | { tv = TNum z; _ } -> Chains.Num (int_of_z z)
+        | { tv = TK KLeftParen; _ } -> Chains.LP | { tv = TK KRightParen; _ } -> Chains.RP
+        | { tv = TK KPlus; _ } -> Chains.Op '+' | { tv = TK KMinus; _ } -> Chains.Op '-'
+        | { tv = TK KAsterisk; _ } -> Chains.Op '*' | { tv = TK KSlash; _ } -> Chains.Op '/'
+        | _ -> raise Chains.Stuck) in
+    (match (try Some (Chains.wrap_term (Chains.parse (List.map tk_of body_toks))) with Chains.Stuck -> None), parse_parse_result r with
+     | Some expected, POkR (t, _, _) ->
+       if term_of_sexp t = expected then compare_parse (List.map (fun x -> ptok_of_tok (tok_of_sexp x)) its) (parse_parse_result r)
+       else (`Property ("tree is not the left-associated derivation with parentheses honoured; expected " ^ Sexp.to_string (sexp_of_term expected)), true)
+     | Some _, _ -> (`Property "a well-formed chain is rejected", true)
+     | None, _ -> (`Mismatch "reference reader stuck", false))
+  | L (A "parsesrc" :: _), L [ A "parsed"; L (A "toks" :: its); r ] ->
     compare_parse (List.map (fun x -> ptok_of_tok (tok_of_sexp x)) its) (parse_parse_result r)
-  | L [ A "parsesrc"; _ ], L (A ("lexerr" | "notutf8") :: _) -> (`Ok, false)
+  | L (A "parsesrc" :: _), L (A ("lexerr" | "notutf8") :: _) -> (`Ok, false)
   | _ -> (`Mismatch "unrecognised case", false)
 
 let search (_ : Sexp.t) ~(emit : Sexp.t -> unit) : unit = ignore emit
 let describe (case : Sexp.t) : string * int =
   match case with
   | L (A "parsetoks" :: ts) -> ("tokens", List.length ts)
+  | L [ A "parsesrc"; h; _ ] -> ("chain", (String.length (atom h) - 2) / 8)
   | L [ A "parsesrc"; h ] -> ("source", (String.length (atom h) - 2) / 8)
   | _ -> ("?", 0)
 let tags (_ : Sexp.t) (res : Sexp.t) : string list =
